@@ -85,6 +85,9 @@ class WalkOracles(Oracles):
                 return kmer_v(kid(k)[0], not kid(k)[1])
         if name == "clone" and tr.endswith("Clone"):
             return recv(it, args[0])
+        if tr == "Kmer" and name == "is_palindrome" and args and kid(recv(it, args[0])):
+            # a fact about the data: both answers are explored (the reverse complement of a palindrome is the same k-mer)
+            return mkbool(self.choose("pal:%s" % kid(recv(it, args[0]))[0], (False, True)))
         if name == "get_kmer_data":
             k = recv(it, args[1])
             if kid(k) is None:
@@ -161,8 +164,14 @@ class ExtenderOracles(WalkOracles):
                 return Adt("compression::ExtMode", 0, [kmer_v("p%d" % i), dir_v(nd), exts_sym("u%d" % i)])
             adt = "compression::ExtModeNode" if self.graph_route else "compression::ExtMode"
             return Adt(adt, 1, [exts_sym("final")])
+        if self.len_offset and fn.get("path", "").split("::")[-1] == "len" and fn.get("path", "").startswith("std::vec::Vec") and len(args) == 1 \
+                and isinstance(recv(it, args[0]), VecV):
+            # a long walk, told from its end: the path already holds `len_offset` earlier elements (elided), then the scripted steps
+            return Int(64, False, val=len(recv(it, args[0]).elems) + self.len_offset)
         r = self.common(it, fn, args, dest_ty, term, caller)
         return r
+
+    len_offset = 0
 
 
 def extender_table(F, rep, rule, graph_route):
@@ -279,6 +288,34 @@ def extender_table(F, rep, rule, graph_route):
                 got_bits = list(ev.getbits()) if isinstance(ev, Int) else None
                 if got_bits is not None and all(b is not TOP for b in got_bits) and got_bits not in ok_bits:
                     problems.append(("the returned terminal extensions are not those reported by the terminating step", row))
+    # ---- long walks: one short of / at every size constant the growth function mentions, the path is taken to hold that many earlier
+    # elements already (their identities do not matter to the loop); whatever the function does at such a size — cut the line, hand the rest to
+    # a later seed — an element taken out of the availability set must be in the path, and the other way round
+    from .dt_graph import size_thresholds
+    for c in size_thresholds(F, body, lo=15)[-2:]:
+        for off in (c - 1, c):
+            def mk2(script, off=off):
+                h = ExtenderOracles(script, step["path"], graph_route)
+                h.len_offset = off
+                return h
+            for a, out, h in explore(mk2, lambda h: run(h, LEFT)):
+                n_rows += 1
+                rep.evaluations += 1
+                row = dict(a, earlier_elements=off)
+                if isinstance(out, tuple) and out and out[0] in ("inconclusive", "diverge"):
+                    continue
+                pv, ex = out
+                elems = list(pv.elems) if isinstance(pv, VecV) else None
+                if elems is None:
+                    continue
+                placed = [(h.id_of(e.fields[0]) if graph_route else (kid(e.fields[0])[0] if kid(e.fields[0]) else None)) for e in elems if isinstance(e, Tup)]
+                lost = [x for x in h.removed if x != "seed" and x not in placed]
+                kept = [x for x in placed if x not in h.removed]
+                if lost:
+                    problems.append(("on a walk that already holds %d elements, %s %s taken out of the availability set but not placed in the path: "
+                                     "no node will ever contain %s" % (off, lost, "is" if len(lost) == 1 else "are", "it" if len(lost) == 1 else "them"), row))
+                elif kept:
+                    problems.append(("on a walk that already holds %d elements, %s placed in the path but left available (a second node can take it again)" % (off, kept), row))
     if problems:
         msg, row = problems[0]
         rep.violated(rule, key0, "%s growth loop (%s): %s  [scripted steps %s]" % (label, body["path"].split("::")[-1], msg, row),
@@ -447,13 +484,13 @@ def hash_builder_table(F, rep, rule):
     key0 = "kmer-builder(%s)" % body["path"].split("::")[-1]
     problems = []
     rows = 0
-    for K in (3, 5):
+    for K, stranded in ((3, False), (5, False), (3, True)):
         def mk(script, K=K):
             return HashBuilderOracles(script, K, step["path"])
 
-        def run(h):
+        def run(h, stranded=stranded):
             it = Interp(F, False, h)
-            me = struct_of(F, adt_path, {"stranded": mkbool(False), "spec": Ref(Cell(Opaque("S", {"spec"}))),
+            me = struct_of(F, adt_path, {"stranded": mkbool(stranded), "spec": Ref(Cell(Opaque("S", {"spec"}))),
                                          "available_kmers": Opaque("bit_set::BitSet", {"available"}),
                                          "index": Ref(Cell(Opaque("index", {"index"})))})
             pcell = Cell(VecV([]), "path")
@@ -464,9 +501,13 @@ def hash_builder_table(F, rep, rule):
         for a, out, h in explore(mk, run):
             rows += 1
             rep.evaluations += 1
-            row = dict(a)
+            row = dict(a, stranded=stranded)
             if isinstance(out, tuple) and out and out[0] == "inconclusive":
                 rep.inconclusive(rule, key0 + "/row%d" % rows, "node builder: %s (row %s)" % (out[1], row))
+                continue
+            if not stranded and any(k_.startswith("pal:") and v_ for k_, v_ in a.items()):
+                # unstranded, and the builder itself asked whether a k-mer is a palindrome and was told yes: what it may then skip (a palindrome
+                # ends the line on both sides) is the step rule's business; the stranded rows — where palindromes mean nothing — judge it
                 continue
             if isinstance(out, tuple) and out and out[0] == "diverge":
                 problems.append(("the builder diverges: %s" % out[1], row))
@@ -646,6 +687,232 @@ def graph_builder_table(F, rep, rule):
         rep.holds(rule, key0, "graph route node builder: on all %d scripted walk pairs the node path, payload fold and terminal-extension "
                   "complements are the specified ones" % rows, sample={"walk_pairs": rows})
 
+
+
+# =========================================================================== the graph route end to end on scripted chains
+
+class ChainOracles(WalkOracles):
+    """A small finished graph, scripted: nodes in a line  l1 - l0 - seed - r0 - r1  (n_l, n_r in 0..2 are oracles), every node stored either
+    in line orientation or reverse-complemented (oracle per node), 0 or 2 extensions leaving each end of the line (oracle), no palindromes,
+    every join accepted.  NOTHING of the graph route is scripted: the node builder, the growth function and the step function are all
+    interpreted, and only their questions to the graph / the availability set / the caller's spec are answered from the model — so whatever
+    the three private functions pass to each other, the result is judged against the line."""
+
+    def __init__(self, script, stranded):
+        WalkOracles.__init__(self, script)
+        self.stranded = stranded
+        self.joins = []
+        self.seq_path = None
+        self.line = None
+
+    def setup(self):
+        if self.line is None:
+            nl = self.choose("n_l", (0, 1, 2))
+            nr = self.choose("n_r", (0, 1, 2))
+            self.line = ["l%d" % i for i in reversed(range(nl))] + ["seed"] + ["r%d" % i for i in range(nr)]
+            self.fwd = {"seed": True}
+            for x in self.line:
+                if x != "seed":
+                    self.fwd[x] = True if self.stranded else self.choose("fwd_" + x, (True, False))
+            self.ends = (self.choose("lend", (0, 2)), self.choose("rend", (0, 2)))
+        return self.line
+
+    # ---- geometry
+    def stored_side(self, x, line_side):
+        """the stored side of node x that faces the given side of the line"""
+        return line_side if self.fwd[x] else flip(line_side)
+
+    def neighbour(self, x, stored_side):
+        line = self.setup()
+        line_side = stored_side if self.fwd[x] else flip(stored_side)
+        i = line.index(x) + (1 if line_side == RIGHT else -1)
+        return line[i] if 0 <= i < len(line) else None
+
+    def exts_byte(self, x):
+        line = self.setup()
+        m = 0
+        for line_side in (LEFT, RIGHT):
+            sd = self.stored_side(x, line_side)
+            if self.neighbour(x, sd) is not None:
+                bases = (1,)
+            else:
+                bases = (0, 1)[:self.ends[0 if line_side == LEFT else 1]]
+            for b in bases:
+                m |= 1 << (b + (4 if sd == RIGHT else 0))
+        return m
+
+    def on_call(self, it, fn, args, dest_ty, term, caller):
+        path = fn.get("path", "")
+        name = path.split("::")[-1]
+        tr = fn.get("trait", "")
+        if is_print_call(fn):
+            return Opaque(dest_ty, {"fmt"})
+        if path.startswith("graph::Node::<") or path.startswith("graph::Node<"):
+            n = recv(it, args[0])
+            x = self.id_of(n.fields[0]) if isinstance(n, Adt) and n.fields else None
+            if x is None or x not in self.setup():
+                raise Undecided("a node that is not on the scripted line (%r)" % (n,))
+            if name == "sequence":
+                return Opaque("DnaStringSlice", {"seq"}, {"node": x})
+            if name == "exts":
+                return Adt(EXTS, 0, [Int(8, False, val=self.exts_byte(x))])
+            if name == "data":
+                return self.data_ref(x)
+            if name == "len":
+                return Int(64, False, val=self.K + 2)
+        if tr in ("Vmer", "Mer") and args and isinstance(recv(it, args[0]), Opaque) and "seq" in tags_of(recv(it, args[0])):
+            x = recv(it, args[0]).info.get("node")
+            side = None
+            if name == "first_kmer":
+                side = LEFT
+            elif name == "last_kmer":
+                side = RIGHT
+            elif name == "term_kmer":
+                side = dir_of(args[1])
+            elif name == "get_kmer" and isinstance(args[1], Int) and args[1].is_conc():
+                side = LEFT if args[1].val == 0 else (RIGHT if args[1].val == 2 else None)
+            elif name == "len":
+                return Int(64, False, val=self.K + 2)
+            if side is not None:
+                return Opaque("K", {"term"}, {"node": x, "side": side})
+            raise Undecided("%s on a node's sequence" % name)
+        if tr == "Kmer" and name == "is_palindrome":
+            return mkbool(False)
+        if tr == "Kmer" and name in ("extend", "extend_left", "extend_right"):
+            k = recv(it, args[0])
+            d = dir_of(args[2]) if name == "extend" else (LEFT if name == "extend_left" else RIGHT)
+            b = args[1].val if isinstance(args[1], Int) and args[1].is_conc() else None
+            if isinstance(k, Opaque) and "term" in k.tags and d is not None and k.info.get("side") == d and b is not None \
+                    and (self.exts_byte(k.info["node"]) >> (b + (4 if d == RIGHT else 0))) & 1:
+                return Opaque("K", {"next"}, {"node": k.info["node"], "side": d})
+            raise Undecided("a k-mer that is not (terminal k-mer of a side of a node) extended by (an extension of that side): %r + %r towards %r" % (k, args[1], d))
+        if name == "find_link" and len(args) == 3:
+            k = recv(it, args[1])
+            d = dir_of(args[2])
+            if not (isinstance(k, Opaque) and "next" in k.tags) or d is None or k.info.get("side") != d:
+                raise Undecided("find_link asked about %r towards %r" % (k, d))
+            x = k.info["node"]
+            y = self.neighbour(x, d)
+            if y is None:
+                return none()
+            line_side = d if self.fwd[x] else flip(d)          # the side of the line the walk moves to
+            s_in = self.stored_side(y, flip(line_side))
+            return some(Tup([Int(64, False, bits=[TOP] * 64, tags=frozenset({"id:" + y})), dir_v(s_in), mkbool(s_in == d)]))
+        if (path.endswith("BitSet::contains") or (name == "contains" and "bit_set" in path.split("<")[0])) and len(args) == 2:
+            x = self.id_of(args[1])
+            if x is None:
+                raise Undecided("availability of an unknown node")
+            return mkbool(x not in self.removed)
+        if name == "join_test" and "CompressionSpec" in tr:
+            a, b = recv(it, args[1]), recv(it, args[2])
+            self.joins.append((a.info.get("fold") if isinstance(a, Opaque) else None, b.info.get("fold") if isinstance(b, Opaque) else None))
+            return mkbool(True)
+        if name == "sequence_of_path":
+            itv = args[1]
+            vals = None
+            if isinstance(itv, IterV) and itv.kind == "deque":
+                vals = list(it.read(itv.a[0].cell, itv.a[0].path).elems)
+            elif isinstance(itv, IterV):
+                from .models import drain_iter
+                items = drain_iter(it, itv, term, caller)
+                if items is not None:
+                    vals = [deref_val(it, e) for e in items]
+            if vals is not None and all(isinstance(e, Tup) and len(e.fields) == 2 for e in vals):
+                self.seq_path = [(self.id_of(e.fields[0]), dir_of(e.fields[1])) for e in vals]
+            return Opaque("DnaString", {"path-seq"})
+        return self.common(it, fn, args, dest_ty, term, caller)
+
+
+def _rev4(m):
+    return ((m & 1) << 3) | ((m & 2) << 1) | ((m & 4) >> 1) | ((m & 8) >> 3)
+
+
+def graph_chain_table(F, rep, rule):
+    """the graph route's node builder with its growth and step functions, all interpreted together, on scripted lines of nodes"""
+    try:
+        step, ext = find_extender(F, True)
+        builders = find_callers(F, ext["path"], exclude=(ext["path"],))
+    except Unsupported as e:
+        rep.inconclusive(rule, "graph-chain", str(e))
+        return
+    if len(builders) != 1:
+        rep.inconclusive(rule, "graph-chain", "role discovery: expected one caller of the graph growth function, found %d" % len(builders))
+        return
+    body = builders[0]
+    if body["argc"] != 2:
+        rep.inconclusive(rule, "graph-chain", "the node builder does not take (self, seed node): %d parameters" % body["argc"])
+        return
+    adt_path = C.adt_name(F, body["locals"][1])
+    key0 = "graph-chain(%s)" % body["path"].split("::")[-1]
+    problems = []
+    rows = 0
+    for stranded in (False, True):
+        def mk(script, stranded=stranded):
+            return ChainOracles(script, stranded)
+
+        def run(h, stranded=stranded):
+            it = Interp(F, False, h)
+            me = struct_of(F, adt_path, {"stranded": mkbool(stranded), "spec": Ref(Cell(Opaque("S", {"spec"}))),
+                                         "available_nodes": Opaque("bit_set::BitSet", {"available"}),
+                                         "graph": Ref(Cell(Opaque("graph", {"graph"})))})
+            return it.call_body(body, [Ref(Cell(me, "self")), Int(64, False, bits=[TOP] * 64, tags=frozenset({"id:seed"}))])
+        for a, out, h in explore(mk, run):
+            rows += 1
+            rep.evaluations += 1
+            row = dict(a, stranded=stranded)
+            if isinstance(out, tuple) and out and out[0] == "inconclusive":
+                rep.inconclusive(rule, key0 + "/row%d" % rows, "graph route on a scripted line: %s (row %s)" % (out[1], row))
+                return
+            if isinstance(out, tuple) and out and out[0] == "diverge":
+                problems.append(("the builder diverges: %s" % out[1], row))
+                continue
+            line = h.setup()
+            want_path = [(x, LEFT if h.fwd[x] else RIGHT) for x in line]
+            if h.seq_path != want_path:
+                problems.append(("the node path handed to sequence_of_path is %s; the line is %s ((node, Left = as stored))" % (h.seq_path, want_path), row))
+                continue
+            i0 = line.index("seed")
+            want_joins = set()
+            for i in range(i0, 0, -1):
+                want_joins.add(((line[i],), (line[i - 1],)))
+            for i in range(i0, len(line) - 1):
+                want_joins.add(((line[i],), (line[i + 1],)))
+            if set(h.joins) != want_joins:
+                bad = [j for j in h.joins if j not in want_joins] or [j for j in want_joins if j not in h.joins]
+                problems.append(("the join predicate is asked about the payload pairs %s; required: once per link of the line, (payload of the node the walk stands on, "
+                                 "payload of the node it wants to enter) = %s — first difference %s" % (h.joins, sorted(want_joins), bad[0]), row))
+                continue
+            if not (isinstance(out, Tup) and len(out.fields) == 4):
+                rep.inconclusive(rule, key0 + "/row%d" % rows, "graph route on a scripted line: result shape %r" % (out,))
+                return
+            seq, ex, npath, data = out.fields
+            fold = data.info.get("fold") if isinstance(data, Opaque) else None
+            if fold is None or sorted(fold) != sorted(line):
+                problems.append(("the payload is folded over %s; the merged node consists of exactly %s" % (fold, line), row))
+                continue
+            if sorted(set(h.removed)) != sorted(line):
+                problems.append(("nodes %s are taken out of the availability set; the merged node consists of %s" % (sorted(set(h.removed), key=str), sorted(line)), row))
+                continue
+            ev = ex.fields[0] if isinstance(ex, Adt) and ex.name == EXTS else None
+            lx, rx = line[0], line[-1]
+            lbits = (0b0011 if h.ends[0] == 2 else 0)
+            rbits = (0b0011 if h.ends[1] == 2 else 0)
+            want = (lbits if h.fwd[lx] else _rev4(lbits)) | ((rbits if h.fwd[rx] else _rev4(rbits)) << 4)
+            if not (isinstance(ev, Int) and ev.is_conc()):
+                rep.inconclusive(rule, key0 + "/row%d" % rows, "graph route on a scripted line: the merged node's extensions could not be evaluated (%r)" % (ev,))
+                return
+            if ev.val != want:
+                problems.append(("the merged node's extensions are %s; the line's two ends give %s (the extensions leaving the line, complemented where the end "
+                                 "node is stored reverse-complemented)" % (bin(ev.val), bin(want)), row))
+    if problems:
+        msg, row = problems[0]
+        rep.violated(rule, key0, "graph route (step + growth + node builder interpreted together) on a scripted line of nodes: %s  [line %s]" % (msg, row),
+                     witness={"kind": "row", "row": {k: str(v) for k, v in row.items()}, "problem": msg, "count": len(problems)},
+                     site=F.site(body, body["line"]))
+    else:
+        rep.holds(rule, key0, "graph route end to end: on all %d scripted lines (0-2 nodes on either side of the seed, every orientation, open / branching ends, "
+                  "stranded and not) the merged node is the whole line, the join predicate is asked exactly about the payloads of the two linked nodes, and the "
+                  "terminal extensions are those of the line's ends" % rows, sample={"lines": rows})
 
 
 # =========================================================================== drivers
@@ -1022,14 +1289,19 @@ class EntryOracles(WalkOracles):
         if isinstance(v, Tup) and v.fields:
             v = v.fields[0]
         if isinstance(v, Opaque) and kid(v):
+            if kid(v)[1] and not v.info.get("canon"):
+                return None         # the reverse complement of a key, taken literally: a different k-mer, about which nothing is known
             return ("key", kid(v)[0])
         if isinstance(v, Opaque) and "of" in v.info:
             pr = (v.info.get("of"), v.info.get("side"), v.info.get("base"))
+            # the reverse complement of a neighbour is the neighbour itself once canonicalised; taken literally it is another k-mer, whose
+            # membership is a separate fact about the key set
+            lit_rc = bool(v.info.get("rc")) and not v.info.get("canon")
             if self.active is not None and pr == ("k0",) + tuple(self.active):
-                st = self.choose("probe", ("absent", "is-k1", "is-k0"))
+                st = self.choose("rc-of-probe" if lit_rc else "probe", ("absent", "is-k1", "is-k0"))
                 if st != "absent":
                     return ("key", st[3:])
-            return ("absent", pr)
+            return ("absent", pr + (("rc",) if lit_rc else ()))
         return None
 
     def key_rank(self, name):
@@ -1141,7 +1413,19 @@ class EntryOracles(WalkOracles):
             k = recv(it, args[0])
             b = args[1].val if isinstance(args[1], Int) and args[1].is_conc() else "?"
             side = LEFT if name == "extend_left" else (RIGHT if name == "extend_right" else dir_of(args[2]))
+            if kid(k) and kid(k)[1] and not k.info.get("canon") and b != "?":
+                # rc(k) extended on one side by b = rc(k extended on the other side by the complement of b)
+                return Opaque("K", {"ext"}, {"of": kid(k)[0], "side": LEFT if side == RIGHT else RIGHT, "base": 3 - b, "canon": False, "rc": True})
+            if kid(k) and kid(k)[1] and not k.info.get("canon"):
+                return Opaque("K", {"ext"}, {"of": "?", "side": side, "base": b, "canon": False})
             return Opaque("K", {"ext"}, {"of": kid(k)[0] if kid(k) else "?", "side": side, "base": b, "canon": False})
+        if tr == "Mer" and name == "rc" and isinstance(recv(it, args[0]), Opaque) and "of" in recv(it, args[0]).info and not kid(recv(it, args[0])):
+            k = recv(it, args[0])
+            info = dict(k.info)
+            if info.get("canon"):
+                info["of"] = "?"
+            info["rc"] = not info.get("rc")
+            return Opaque("K", set(k.tags), info)
         if tr == "Kmer" and name in ("min_rc", "min_rc_flip"):
             k = recv(it, args[0])
             info = dict(k.info) if isinstance(k, Opaque) else {}
